@@ -48,11 +48,14 @@ def brownian_programs():
             nm = f"split_{'H' if have_H else 'W'}{'L' if is_left else 'R'}"
             P.append(Prog(nm, 'Brownian', (lambda B, h=have_H, l=is_left: pb.split(B, h, l)), _sample_split(have_H),
                           props=('C03', 'C04')))
+            P.append(Prog(nm + '_hw', 'Brownian', (lambda B, h=have_H, l=is_left: pb.split(B, h, l, True)),
+                          _sample_split(have_H), props=('C04', 'C06'), note='same kernel with halfway_tree=True'))
     P.append(Prog('h_to_u', 'Brownian', pb.h_to_u,
                   lambda rng: dict(W=rng.gauss(0, 1), H=rng.gauss(0, 1), h=rng.uniform(0.01, 2)), props=('C03',)))
     P.append(Prog('agg2', 'Brownian', lambda B: pb.aggregate(B, 2, False), _sample_agg(2, False), props=('C03',)))
     P.append(Prog('agg3', 'Brownian', lambda B: pb.aggregate(B, 3, False), _sample_agg(3, False), props=('C03',)))
     P.append(Prog('agg2A', 'Brownian', lambda B: pb.aggregate(B, 2, True), _sample_agg(2, True), props=('C03',)))
+    P.append(Prog('agg3A', 'Brownian', lambda B: pb.aggregate(B, 3, True), _sample_agg(3, True), props=('C03',)))
     P.append(Prog('levy_davie', 'Brownian', lambda B: pb.levy(B, LA.davie), _sample_levy, props=('C03', 'C04'), tol=1e-15))
     P.append(Prog('levy_foster', 'Brownian', lambda B: pb.levy(B, LA.foster), _sample_levy, props=('C03', 'C04'),
                   tol=1e-15, note='torch tensor .sqrt() is not always correctly rounded (1 ulp vs libm observed)'))
